@@ -6,11 +6,14 @@ package recvx
 import (
 	"context"
 	"fmt"
+	"io"
 	"sort"
 	"strings"
 	"sync"
 	"sync/atomic"
 	"time"
+
+	"github.com/sirupsen/logrus"
 
 	"github.com/PowerDNS/lightningstream/snapshot"
 	"github.com/PowerDNS/lightningstream/syncer/events"
@@ -61,6 +64,9 @@ type Scenario struct {
 	// HeldBound: every instance has exactly one valid blob and nothing changes: then
 	// (successful Loads - deliveries) is the number of snapshots held in memory by the receiver
 	HeldBound bool `json:"held_bound,omitempty"`
+	// ParkOnVanish: a downloader that finds its instance gone from the listing is held (at its log call, outside
+	// every lock) for this many List cycles - the instance may reappear meanwhile
+	ParkOnVanish int `json:"park_on_vanish,omitempty"`
 }
 
 // HostileBlob is provided by the caller (the C08 generators).
@@ -192,7 +198,15 @@ func Run(sc Scenario, hb HostileBlob, watchdog time.Duration) (out Outcome) {
 	conf.MemoryDownloadedSnapshots = sc.DLimit
 	conf.MemoryDecompressedSnapshots = sc.ZLimit
 	ev := events.New()
-	r := receiver.New(b, conf, sc.DB, lsx.NullLogger(), sc.Own, ev, hooks.New())
+	var logger logrus.FieldLogger = lsx.NullLogger()
+	if sc.ParkOnVanish > 0 {
+		l := logrus.New()
+		l.SetOutput(io.Discard)
+		l.SetLevel(logrus.WarnLevel)
+		l.AddHook(parkHook{cycles: &listCycles, n: int32(sc.ParkOnVanish)})
+		logger = l
+	}
+	r := receiver.New(b, conf, sc.DB, logger, sc.Own, ev, hooks.New())
 
 	labelsD := map[string]string{"lmdb": sc.DB, "limit_name": "download"}
 	labelsZ := map[string]string{"lmdb": sc.DB, "limit_name": "decompress"}
@@ -511,4 +525,23 @@ func Run(sc Scenario, hb HostileBlob, watchdog time.Duration) (out Outcome) {
 		out.Violations = append(out.Violations, Finding{"receiver-run-did-not-return", "Receiver.Run did not return within 5s after cancellation"})
 	}
 	return out
+}
+
+// parkHook delays the goroutine that logs "no longer has any snapshots" until n further List cycles completed.
+type parkHook struct {
+	cycles *int32
+	n      int32
+}
+
+func (h parkHook) Levels() []logrus.Level { return []logrus.Level{logrus.WarnLevel} }
+
+func (h parkHook) Fire(e *logrus.Entry) error {
+	if strings.Contains(e.Message, "no longer has any snapshots") {
+		start := atomic.LoadInt32(h.cycles)
+		deadline := time.Now().Add(2 * time.Second)
+		for atomic.LoadInt32(h.cycles) < start+h.n && time.Now().Before(deadline) {
+			time.Sleep(200 * time.Microsecond)
+		}
+	}
+	return nil
 }
